@@ -596,6 +596,13 @@ def build(interp_globals):
     @model
     def m_PyArg_ParseTuple(args, fmt, *refs):
         spec = fmt.split(":")[0].split(";")[0]
+        if spec.startswith("(") and spec.endswith(")") and spec.count("(") == 1:
+            # one nested tuple argument: "(...)"
+            if len(args) != 1 or not is_tuple_like(args[0]):
+                st.set_err(TypeError, TypeError("argument must be a tuple"))
+                return 0
+            args = args[0]
+            spec = spec[1:-1]
         optional = False
         items = list(args)
         idx = 0
